@@ -123,7 +123,7 @@ def xdec_events(args):
     w = dec_world(schema)
     out = []
     for impl in ("bp", "ref"):
-        ev = {"op": "xdec", "impl": impl, "ty": ty, "val": val, "b": list(b), "res": "ok", "obs": val, "case": {"ty": ty, "tag": tag}}
+        ev = {"op": "xdec", "impl": impl, "src": "spec", "ty": ty, "val": val, "b": list(b), "res": "ok", "obs": val, "case": {"ty": ty, "tag": tag}}
         try:
             if impl == "bp":
                 ev["obs"] = dyn.obs_bp(schema, w["bp"][ty]().parse(bytes(b)), ty)
@@ -145,7 +145,7 @@ def cross_events(case):
     out = []
     try:
         b_bp = bytes(dyn.conc_bp(schema, C, ty, val))
-        ev = {"op": "xdec", "impl": "ref", "dir": "bp->ref", "ty": ty, "val": val, "b": list(b_bp), "res": "ok", "obs": val,
+        ev = {"op": "xdec", "impl": "ref", "src": "bp", "dir": "bp->ref", "ty": ty, "val": val, "b": list(b_bp), "res": "ok", "obs": val,
               "case": {"ty": ty, "tag": case.get("tag", "")}}
         try:
             m = R[ty]()
@@ -155,10 +155,10 @@ def cross_events(case):
             ev["res"] = type(ex).__name__ + ":" + str(ex)[:60]
         out.append(ev)
     except Exception as ex:
-        out.append({"op": "xdec", "impl": "ref", "dir": "bp->ref", "ty": ty, "val": val, "b": [], "res": "encode:" + type(ex).__name__, "obs": val,
+        out.append({"op": "xdec", "impl": "ref", "src": "bp", "dir": "bp->ref", "ty": ty, "val": val, "b": [-1], "res": type(ex).__name__, "obs": val,
                     "case": {"ty": ty, "tag": case.get("tag", "")}})
     b_ref = dyn.fill_ref(schema, R, ty, val).SerializeToString()
-    ev = {"op": "xdec", "impl": "bp", "dir": "ref->bp", "ty": ty, "val": val, "b": list(b_ref), "res": "ok", "obs": val,
+    ev = {"op": "xdec", "impl": "bp", "src": "ref", "dir": "ref->bp", "ty": ty, "val": val, "b": list(b_ref), "res": "ok", "obs": val,
           "case": {"ty": ty, "tag": case.get("tag", "")}}
     try:
         ev["obs"] = dyn.obs_bp(schema, C[ty]().parse(b_ref), ty)
@@ -253,6 +253,6 @@ def run(ctx):
     ctx.sample({"cross_case": {"dir": ev2[51]["dir"], "ty": ev2[51]["ty"], "bytes": ev2[51]["b"]}})
     ctx.validate("Trace_Codec", ev2, header={"schema": w["schema"]}, shard=1500, weight=lambda e: 1 + len(e["b"]) // 40)
     # the reference must satisfy the spec: otherwise the machinery (spec or binding) is wrong, not betterproto
-    bad = [(cl, c) for cl, c in ctx.violations if isinstance(c, dict) and ((c.get("impl") == "ref" and c.get("dir") is None) or cl.startswith("spec_"))]
+    bad = [(cl, c) for cl, c in ctx.violations if cl.startswith(("spec_", "ref_"))]
     if bad:
         raise MachineryError("reference/spec disagreement: %s %s" % (bad[0][0], json.dumps(bad[0][1])[:1500]))
